@@ -339,6 +339,44 @@ fn replay_flood(rec: &mut Rec, _ctx: &Ctx, idx: u64, rng: &mut rand_chacha::ChaC
   }
 }
 
+/// every threshold 1..=T once: t clients, exactly t reports in shuffled order
+fn threshold_sweep(rec: &mut Rec, _ctx: &Ctx, t: u64, rng: &mut rand_chacha::ChaCha20Rng) {
+  use rand::seq::SliceRandom;
+  let t = t as u32 + 1;
+  let sc = Scenario { measurement: rand_bytes_in(rng, 1..40), epoch: rand_bytes_in(rng, 0..6), t, src: RandSrc::Local };
+  let auxes: Vec<Option<Vec<u8>>> = (0..t).map(|i| if i % 3 == 0 { None } else { Some(rand_bytes_in(rng, 0..12)) }).collect();
+  rec.evals += 1;
+  rec.ev("threshold_sweep_scenarios");
+  rec.case(&("threshold", t));
+  let reps = match sc.make_reports(rng, &auxes) {
+    Ok(r) => r,
+    Err(e) => {
+      rec.violation("generate-failed", e, json!({"threshold": t}));
+      return;
+    }
+  };
+  let decoded: Option<Vec<Message>> = reps.iter().map(|r| Message::from_bytes(&r.bytes)).collect();
+  let decoded = match decoded {
+    Some(d) => d,
+    None => {
+      rec.violation("wire-roundtrip", format!("honest report rejected (threshold sweep, t = {})", t), json!({"threshold": t}));
+      return;
+    }
+  };
+  let mut sel: Vec<usize> = (0..t as usize).collect();
+  sel.shuffle(rng);
+  let shares: Vec<Share> = sel.iter().map(|&i| decoded[i].share.clone()).collect();
+  rec.ev("recover");
+  let small = |sel: &[usize]| -> Value { json!({"threshold": t, "measurement": hex(&sc.measurement), "epoch": hex(&sc.epoch), "order_head": sel.iter().take(16).collect::<Vec<_>>() }) };
+  match share_recover(&shares) {
+    Ok(c) => {
+      let probe: Vec<usize> = vec![0, (t as usize) / 2, t as usize - 1];
+      reveal_all(rec, &sc, &reps, &decoded, &c.get_message(), t as u64, &probe)
+    }
+    Err(e) => rec.violation("recover-failed:threshold-sweep", format!("{} (exactly t = {} distinct reports)", e, t), small(&sel)),
+  }
+}
+
 pub fn run(ctx: &Ctx) -> Rec {
   let n = ctx.n(8000, 120_000);
   let mut rec = par_run(ctx, "scenario", n, |rec, i, rng| scenario(rec, ctx, i, rng));
@@ -346,6 +384,10 @@ pub fn run(ctx: &Ctx) -> Rec {
   rec.merge(par_run(ctx, "length-sweep", 2 * (max_len + 1), |rec, i, rng| length_sweep(rec, ctx, i, rng)));
   rec.note("length_sweep_max", json!(max_len));
   rec.merge(par_run(ctx, "replay-flood", ctx.n(4, 16), |rec, i, rng| replay_flood(rec, ctx, i, rng)));
+  // every threshold 1..=T once (O(t^2) each)
+  let tmax: u64 = if ctx.thorough() { 1400 } else { 320 };
+  rec.merge(par_run(ctx, "threshold-sweep", tmax, |rec, i, rng| threshold_sweep(rec, ctx, tmax - 1 - i, rng)));
+  rec.note("threshold_sweep_max", json!(tmax));
   let _ = HashMap::<u8, u8>::new();
   rec.note("scenarios", json!(n));
   rec
